@@ -150,6 +150,8 @@ def cases(tier):
             for first in range(len(events(sc['n']))):
                 yield ('history', fmt, sc['n'], mp, first, sc['depth'])
                 yield ('faults', fmt, sc['n'], mp, first, sc['fault_depth'])
+    for mp in (1, 2, 3, 5, None):
+        yield ('wide-slices', 'zip_pickle', 6, mp)
 
 
 def universe(tier):
@@ -544,5 +546,58 @@ def run_roundtrip(case, ctx):
     ctx.sample({'family': 'roundtrip', 'format': fmt, 'frames': n}, limit=1)
 
 
+def run_wide_slices(case, ctx):
+    '''six Frames; every set of at most two labels loaded beforehand (in either order); then a slice key that spans loaded and deferred Frames; then every
+    label read back: whatever a Bus holds or returns for a label is the Frame an eager load returns for it, and never more than max_persist are held'''
+    _, fmt, n, mp = case
+    to, frm, ext, _ = FORMATS[fmt]
+    fs = [sf.Frame.from_records([[10 * i + 1, 10 * i + 2]], index=('r',), columns=('p', 'q'), name='w%d' % i) for i in range(n)]
+    labels = [f.name for f in fs]
+    path = os.path.join(workdir(), f'wide_{os.getpid()}{ext}')
+    if not os.path.exists(path):
+        getattr(sf.Bus.from_frames(fs), to)(path)
+    slices = [('iloc[:]', lambda b: b.iloc[:]), ('loc[first:last]', lambda b: b.loc[labels[0]:labels[-1]]), ('head(5)', lambda b: b.head(5)), ('tail(5)', lambda b: b.tail(5)),
+              ('iloc[1:]', lambda b: b.iloc[1:]), ('iloc[::2]', lambda b: b.iloc[::2]), ('loc[list-all]', lambda b: b.loc[list(labels)]), ('mask-all', lambda b: b.loc[np.full(n, True)])]
+    pre_sets = [()] + [(i,) for i in range(n)] + [(i, j) for i in range(n) for j in range(n) if i != j]
+    for pre in pre_sets:
+        for sname, sfn in slices:
+            for readback in ('held', 'parent-reads'):
+                ctx.transition()
+                ctx.state(('wide', mp, pre, sname, readback))
+                ctx.nontriv(('wide', mp, pre, sname, readback))
+                info = dict(max_persist=mp, preloaded=[labels[i] for i in pre], key=sname, then=readback)
+                try:
+                    bus = getattr(sf.Bus, frm)(path, max_persist=mp)
+                    for i in pre:
+                        bus[labels[i]]
+                    sel = sfn(bus)
+                    for b_, what in ((sel, 'selection'), (bus, 'parent')):
+                        heldn = 0
+                        for lab, fr in zip(b_.index.values.tolist(), b_._series.values):
+                            if fr is FrameDeferred:
+                                continue
+                            heldn += 1
+                            if not fr.equals(fs[labels.index(lab)], compare_name=True, compare_dtype=True):
+                                ctx.violation(f'wide-slices|{what}-holds-another-labels-frame', **info, label=lab, holds=repr(fr.name))
+                                raise StopIteration
+                        if mp is not None and heldn > mp:
+                            ctx.violation(f'wide-slices|{what}-holds-more-than-max_persist', **info, held=heldn)
+                            raise StopIteration
+                    if readback == 'parent-reads':
+                        for lab in list(labels) + list(labels)[::-1]:
+                            fr = bus[lab]
+                            if not fr.equals(fs[labels.index(lab)], compare_name=True, compare_dtype=True):
+                                ctx.violation('wide-slices|read-returns-another-labels-frame', **info, label=lab, got=repr(fr.name))
+                                raise StopIteration
+                except StopIteration:
+                    pass
+                except Exception as e:
+                    ctx.violation(f'wide-slices|raises-{type(e).__name__}', **info, error=repr(e))
+    ctx.outcome('wide-slices')
+    ctx.sample({'family': 'wide-slices', 'frames': n, 'max_persist': mp}, limit=1)
+
+
 def run_case(case, ctx):
+    if case[0] == 'wide-slices':
+        return run_wide_slices(case, ctx)
     {'history': run_history, 'faults': run_faults, 'roundtrip': run_roundtrip}[case[0]](case, ctx)
